@@ -6,7 +6,7 @@ id=$1; src=$2; dest=$3; pkgs=$4; shift 4; extra="$*"
 cd /verif
 for k in $(ls "$src/out" | sort); do
   [ -f "$src/out/$k/patch.diff" ] || continue
-  d=seeded/$id-$k; mkdir -p $d; cp "$src/out/$k/"* $d/ 2>/dev/null
+  d=seeded/$id${SUFFIX:-}-$k; mkdir -p $d; cp "$src/out/$k/"* $d/ 2>/dev/null
   [ -f $d/meta.json ] || echo "{\"property\":\"$id\"}" > $d/meta.json
   if ls $d/demo*_test.go >/dev/null 2>&1; then
     dd=$dest
